@@ -530,6 +530,36 @@ def judge_state_isolation(ctx, cfg, n, toks=None, lasts=None, types='vsdfubin'):
     ctx.count('state-isolation-runs', len(lines))
     return v
 
+def judge_multi_step_sources(ctx, cfg, n):
+    """ONE Deserializer read step by step with failures swallowed (T::deserialize(&mut de) repeatedly; Value, IgnoredAny, String and — raw_value builds — Box<RawValue>
+    requests): the str, slice and reader sources must yield the same sequence of results (value or error code) — whatever a failed step left behind in one
+    reader (a raw buffer, a peeked byte, scratch contents) must not show in the next step."""
+    rng = ctx.rng
+    raw = 'raw_value' in engine.CONFIGS[cfg][0]
+    toks = [b'[1, tru]', b'{"k": [2]}', b'"tail"', b'[1 2]', b'{"a" 1}', b'nul', b'"a\\u00e9b"', b'12.5e3', b'[[], {"x": "y"}]', b'tru', b'"unterminated', b'-', b'[1,]', b'{"a":1,}', b'0.1234567890123456789012345']
+    types = 'vis' + ('www' if raw else '')
+    lines, groups = [], []
+    for _ in range(n):
+        k = rng.choice([2, 3, 4])
+        text = b' '.join(rng.choice(toks) for _ in range(k))
+        ty = ''.join(rng.choice(types) for _ in range(k + 1))
+        idx = []
+        for src in ('b', 's', 'r'):
+            idx.append(len(lines))
+            lines.append('dq %s %s %s' % (src, ty, hx(text)))
+        groups.append((text, ty, idx))
+    outs = ctx.impl(cfg, lines)
+    v = []
+    for text, ty, idx in groups:
+        o = [outs[i] for i in idx]
+        if len(set(o)) != 1:
+            j = 1 if o[1] != o[0] else 2
+            v.append({'what': 'multi-step-source-mismatch', 'cfg': cfg, 'input': hx(text), 'types': ty, 'expected': 'slice: ' + o[0][:300], 'actual': '%s: %s' % ('str' if j == 1 else 'reader', o[j][:300]), 'shrinkable': False})
+        elif 'ok:' in o[0]:
+            ctx.distinct_nontrivial += 1
+    ctx.count('multi-step-source-runs', len(lines))
+    return v
+
 def number_side_docs(rng):
     """documents for the feature-gated number paths (arbitrary_precision: the textual scanner scan_integer / scan_decimal / scan_exponent;
     float_roundtrip: parse_long_integer / parse_long_decimal / parse_long_exponent): short and long mantissas, signed / unsigned exponents, and the
@@ -630,7 +660,9 @@ def run_c09(ctx):
         ctx.violations += judge_stream_sources(ctx, cfg, streams)
         ctx.violations += judge_pos(ctx, cfg, 20000 if ctx.tier == 'quick' else 300000)
         ctx.violations += judge_errmsg(ctx, cfg, 3000 if ctx.tier == 'quick' else 60000)
-    for cfg in [c for c in getattr(ctx, 'side_cfgs', []) if c not in ctx.cfgs]:
+    for cfg in list(ctx.cfgs) + [c for c in getattr(ctx, 'side_cfgs', []) if c not in ctx.cfgs]:
+        ctx.violations += judge_multi_step_sources(ctx, cfg, 1500 if ctx.tier == 'quick' else 15000)
+    for cfg in [c for c in getattr(ctx, 'side_cfgs', []) if c not in ctx.cfgs and c != 'raw']:
         docs = number_side_docs(ctx.rng)
         ctx.violations += judge_c09(ctx, cfg, docs)
         ctx.violations += judge_stream_sources(ctx, cfg, [b' '.join(docs[i:i + 3]) for i in range(0, len(docs) - 3, 3)])
@@ -1362,7 +1394,7 @@ PARSER_TB = ['modelled, not verified: std::io::Bytes (one-byte reads, Interrupte
 
 register('C01', cfgs={'quick': ['def'], 'thorough': ['def', 'ap', 'fr', 'ud']}, side_cfgs=['ap', 'raw', 'fr'], run=run_c01, judge=judge_c01, extended=run_c01, trusted_base=PARSER_TB)
 register('C02', cfgs={'quick': ['def', 'po'], 'thorough': ['def', 'po', 'fr', 'ap']}, side_cfgs=['ap', 'raw', 'fr'], run=run_c02, judge=judge_c02, extended=run_c02, trusted_base=PARSER_TB)
-register('C09', cfgs={'quick': ['def'], 'thorough': ['def', 'raw', 'ap', 'fr', 'po', 'ud']}, side_cfgs=['ap', 'fr'], run=run_c09, judge=judge_c09, extended=run_c09, trusted_base=PARSER_TB)
+register('C09', cfgs={'quick': ['def'], 'thorough': ['def', 'raw', 'ap', 'fr', 'po', 'ud']}, side_cfgs=['ap', 'fr', 'raw'], run=run_c09, judge=judge_c09, extended=run_c09, trusted_base=PARSER_TB)
 register('C10', cfgs={'quick': ['def', 'raw'], 'thorough': ['def', 'raw', 'ap']}, side_cfgs=['ap', 'fr'], run=run_c10, judge=None, extended=run_c10, trusted_base=PARSER_TB)
 register('C11', cfgs={'quick': ['def'], 'thorough': ['def']}, side_cfgs=['ap', 'fr'], run=run_c11, judge=judge_c11, extended=run_c11, trusted_base=PARSER_TB)
 register('C12', cfgs={'quick': ['def'], 'thorough': ['def']}, side_cfgs=['fr', 'ap'], run=run_c12, judge=judge_c12, extended=run_c12, trusted_base=PARSER_TB)
